@@ -1,31 +1,51 @@
 package main
 
-// Translator table C13Reuse (coq/Gen/C13Reuse.v), regenerated from /repo/pkg/action/upgrade.go
-// on every check run: the DECISION STRUCTURE of (*Upgrade).reuseValues — one row per path
-// through the function to a `return <values>, nil`, with the conditions along the path (the
-// three flags by field name, len()/nil tests on the new values and on current.Config) and what
-// is returned on it (the caller's map, current.Config, chartutil.CoalesceTables of a copy of
-// the caller's map / of the caller's map itself with current.Config) plus whether
-// `chart.Values = CoalesceValues(current.Chart, current.Config)` was executed on the path.
+// Translator table C13Reuse (coq/Gen/C13Reuse.v), regenerated from /repo/pkg/action on every
+// check run: the DECISION STRUCTURE of (*Upgrade).reuseValues — one row per path through the
+// function (and through the same-package helpers it calls, inlined) to a `return <values>, nil`,
+// with the conditions along the path (the three flags by field name, len()/nil tests on the new
+// values and on current.Config) and what is returned on it (the caller's map, current.Config,
+// chartutil.CoalesceTables of a copy of the caller's map / of the caller's map itself with
+// current.Config) plus whether `chart.Values = CoalesceValues(current.Chart, current.Config)`
+// was executed on the path.
 //
 // coq/Values/ReuseMode.v interprets the rows; Values/ReuseTableProofs.v proves by computation
 // over all 8 x 3 x 3 environments (flags, new values nil/empty/non-empty, deployed values
 // nil/empty/non-empty) that exactly one path is taken and that it returns what the model's
-// reuse_values_fn decides — so reordering the `if` chain in a meaning-changing way, dropping a
-// branch, testing another flag, `== nil` instead of `len() == 0`, or overlaying onto the
-// caller's own map breaks the obligation whatever the generator reaches.  if/else, early
-// returns, nesting, a tagless switch, De Morgan'd or reordered-but-equivalent conditions do not.
+// reuse_values_fn decides.  The obligation is semantic: reordering the tests in a
+// meaning-changing way, dropping a branch, testing another flag, `== nil` instead of
+// `len() == 0`, or overlaying onto the caller's own map breaks it whatever the generator
+// reaches; a rewrite that keeps the decisions does not, whatever its shape.
 //
-// Trusted: that this file prints what it read (symbolic execution of a dozen statement forms;
-// anything it does not know becomes CUnknown / ROther, which no obligation accepts), and that
-// copyVals / CoalesceTables / CoalesceValues are what their names say (copyVals' depth is
-// exactly what the shared-map chains of the harness test).
+// The executor is a small symbolic interpreter in continuation-passing style: if / else / else-if
+// with initialisers, early returns, nested blocks with Go's scoping of `:=`, tag-less and tagged
+// `switch` (default anywhere, `break`), `var` declarations, locals bound to conditions or to
+// values, results of same-package functions and methods INLINED (bounded depth), multi-value
+// returns forwarded (`return helper(x)`), named results with a bare return, type assertions;
+// conditions `u.<Flag>`, !, &&, ||, `len(x) ==/!=/>/>=/</<= 0|1` in either order, `x == nil`,
+// `x != nil`, `b == true`; `if err != nil` after a library call is its error exit, not a decision
+// (the library call is assumed to succeed).  Known callees: copyVals / copystructure.Copy (a
+// copy), chartutil.CoalesceTables, chartutil.CoalesceValues, errors.* / fmt.Errorf (a non-nil
+// error), slog.* (ignored).
+//
+// What it cannot interpret (loops, fallthrough, goto, writes through an index, a call it does not
+// know used as a statement, a condition over something else) is NOT dropped: it is listed, with
+// line and source text, in `reuse_rows_unknown`, and the first obligation of
+// ReuseTableProofs.v is `reuse_rows_unknown = []` — so the failure names the construct.
+//
+// Trusted: that this file prints what it read, and that copyVals / CoalesceTables /
+// CoalesceValues are what their names say (copyVals' depth is exactly what the shared-map
+// chains of the harness test).
 
 import (
 	"fmt"
 	"go/ast"
+	"go/parser"
 	"go/printer"
 	"go/token"
+	"os"
+	"path/filepath"
+	"sort"
 	"strings"
 
 	"verif/harness/internal/hx"
@@ -33,51 +53,163 @@ import (
 
 func init() { registerTable("C13Reuse", genC13Reuse) }
 
-type c13tState struct {
-	val     string            // Gallina rval of the variable newVals on this path
-	vars    map[string]string // local -> "copy" (copyVals(newVals)) | "oldvals" (CoalesceValues(cur.Chart, cur.Config))
-	keepOld string            // "false" | "true" | other (then the row's value becomes ROther)
+// ---- symbolic values ----
+
+type c13sv struct {
+	kind string // new cur copy overlay oldvals curchart chartparam rel recv nil errlib errval cond true false len int other
+	a, b *c13sv
+	s    string // cond: Gallina rcond; other: description; int: literal
 }
 
-func (s c13tState) clone() c13tState {
-	n := c13tState{val: s.val, keepOld: s.keepOld, vars: map[string]string{}}
-	for k, v := range s.vars {
-		n.vars[k] = v
+func c13other(s string) *c13sv { return &c13sv{kind: "other", s: s} }
+
+func (v *c13sv) desc() string {
+	switch v.kind {
+	case "other", "int":
+		return v.s
+	case "copy":
+		return "copy(" + v.a.desc() + ")"
+	case "overlay":
+		return "CoalesceTables(" + v.a.desc() + ", " + v.b.desc() + ")"
+	case "cond":
+		return "condition " + v.s
+	case "len":
+		return "len(" + v.a.desc() + ")"
+	}
+	return v.kind
+}
+
+// who: which of the two maps of the conditions a value is ("new": the caller's map, or a copy of
+// it — copyVals(nil) is nil and a copy is as long as its original —, "cur": current.Config)
+func (v *c13sv) who() (string, bool) {
+	switch v.kind {
+	case "new":
+		return "new", true
+	case "cur":
+		return "cur", true
+	case "copy":
+		return v.a.who()
+	}
+	return "", false
+}
+
+// rval: the Gallina rval of what reuseValues returns as the values to record
+func (v *c13sv) rval() string {
+	switch v.kind {
+	case "new":
+		return "RNew"
+	case "cur":
+		return "RCur"
+	case "overlay":
+		if v.b.kind == "cur" {
+			if v.a.kind == "copy" && v.a.a.kind == "new" {
+				return "ROverlayCopy"
+			}
+			if v.a.kind == "new" {
+				return "ROverlayInPlace"
+			}
+		}
+	}
+	return "(ROther " + hx.CoqStr(v.desc()) + ")"
+}
+
+// ---- environments (Go's block scoping) and paths ----
+
+type c13env []map[string]*c13sv
+
+func (e c13env) clone() c13env {
+	n := make(c13env, len(e))
+	for i, m := range e {
+		n[i] = make(map[string]*c13sv, len(m))
+		for k, v := range m {
+			n[i][k] = v
+		}
 	}
 	return n
 }
 
-type c13tRow struct {
-	line  int
+func (e c13env) push() c13env { return append(e.clone(), map[string]*c13sv{}) }
+
+// upto: leave the scopes opened since the environment had n of them
+func (e c13env) upto(n int) c13env {
+	if n > len(e) {
+		n = len(e)
+	}
+	return e.clone()[:n]
+}
+
+func (e c13env) get(name string) (*c13sv, bool) {
+	for i := len(e) - 1; i >= 0; i-- {
+		if v, ok := e[i][name]; ok {
+			return v, true
+		}
+	}
+	return nil, false
+}
+
+func (e c13env) set(name string, v *c13sv, define bool) {
+	if name == "_" {
+		return
+	}
+	if !define {
+		for i := len(e) - 1; i >= 0; i-- {
+			if _, ok := e[i][name]; ok {
+				e[i][name] = v
+				return
+			}
+		}
+	}
+	e[len(e)-1][name] = v
+}
+
+type c13path struct {
+	conds []string
+	keep  string // "false" | "true" | "other: ..."
+}
+
+func (p c13path) with(c string) c13path {
+	return c13path{conds: append(append([]string{}, p.conds...), c), keep: p.keep}
+}
+
+type c13frame struct {
+	results []string // named results (for a bare return)
+	depth   int
+}
+
+type c13row struct {
 	conds []string
 	val   string
 	keep  string
 }
 
 type c13tr struct {
-	fset                 *token.FileSet
-	recv, chart, cur, nv string
-	rows                 []c13tRow
-	err                  error
+	fset    *token.FileSet
+	funcs   map[string]*ast.FuncDecl // same-package functions by name
+	methods map[string]*ast.FuncDecl // same-package methods of the receiver's type by name
+	rows    []c13row
+	unknown []string
+	seenUnk map[string]bool
+	steps   int
 }
 
-// src: the source text of a node on one line
 func (t *c13tr) src(n ast.Node) string {
 	var b strings.Builder
 	if err := printer.Fprint(&b, t.fset, n); err != nil {
 		return "?"
 	}
-	return strings.Join(strings.Fields(b.String()), " ")
+	s := strings.Join(strings.Fields(b.String()), " ")
+	if len(s) > 160 {
+		s = s[:160] + "..."
+	}
+	return s
 }
 
-func c13tIsIdent(e ast.Expr, name string) bool {
-	id, ok := e.(*ast.Ident)
-	return ok && id.Name == name
-}
-
-func c13tIsSel(e ast.Expr, x, sel string) bool {
-	s, ok := e.(*ast.SelectorExpr)
-	return ok && c13tIsIdent(s.X, x) && s.Sel.Name == sel
+func (t *c13tr) note(n ast.Node, what string) {
+	msg := fmt.Sprintf("line %d: %s: %s", t.fset.Position(n.Pos()).Line, what, t.src(n))
+	if !t.seenUnk[msg] {
+		t.seenUnk[msg] = true
+		t.unknown = append(t.unknown, msg)
+	}
 }
 
 func c13tUnparen(e ast.Expr) ast.Expr {
@@ -90,326 +222,705 @@ func c13tUnparen(e ast.Expr) ast.Expr {
 	}
 }
 
-// who: "new" for the newVals parameter while it still holds the caller's map, "cur" for current.Config
-func (t *c13tr) who(e ast.Expr, st c13tState) (string, bool) {
-	e = c13tUnparen(e)
-	if c13tIsIdent(e, t.nv) && st.val == "RNew" {
-		return "new", true
+// ---- conditions ----
+
+var c13True, c13False = &c13sv{kind: "true"}, &c13sv{kind: "false"}
+
+func c13Cond(s string) *c13sv { return &c13sv{kind: "cond", s: s} }
+
+// asCond: a value used as a condition
+func (t *c13tr) asCond(v *c13sv, at ast.Node) *c13sv {
+	switch v.kind {
+	case "cond", "true", "false":
+		return v
 	}
-	if c13tIsSel(e, t.cur, "Config") {
-		return "cur", true
-	}
-	return "", false
+	t.note(at, "condition not understood ("+v.desc()+")")
+	return c13Cond("(CUnknown " + hx.CoqStr(t.src(at)) + ")")
 }
 
-func c13tIsInt(e ast.Expr, v string) bool {
-	bl, ok := c13tUnparen(e).(*ast.BasicLit)
-	return ok && bl.Kind == token.INT && bl.Value == v
-}
-
-func (t *c13tr) lenOf(e ast.Expr, st c13tState) (string, bool) {
-	c, ok := c13tUnparen(e).(*ast.CallExpr)
-	if !ok || !c13tIsIdent(c.Fun, "len") || len(c.Args) != 1 {
-		return "", false
+func c13Not(v *c13sv) *c13sv {
+	switch v.kind {
+	case "true":
+		return c13False
+	case "false":
+		return c13True
 	}
-	return t.who(c.Args[0], st)
+	return c13Cond("(CNot " + v.s + ")")
 }
 
-func (t *c13tr) cond(e ast.Expr, st c13tState) string {
-	e = c13tUnparen(e)
-	unknown := func() string { return "(CUnknown " + hx.CoqStr(t.src(e)) + ")" }
-	switch x := e.(type) {
-	case *ast.SelectorExpr:
-		if c13tIsIdent(x.X, t.recv) {
-			return "(CFlag " + hx.CoqStr(x.Sel.Name) + ")"
-		}
-	case *ast.Ident:
-		if x.Name == "true" {
-			return "CTrue"
-		}
-		if x.Name == "false" {
-			return "(CNot CTrue)"
-		}
-	case *ast.UnaryExpr:
-		if x.Op == token.NOT {
-			return "(CNot " + t.cond(x.X, st) + ")"
-		}
-	case *ast.BinaryExpr:
-		switch x.Op {
-		case token.LAND:
-			return "(CAnd " + t.cond(x.X, st) + " " + t.cond(x.Y, st) + ")"
-		case token.LOR:
-			return "(COr " + t.cond(x.X, st) + " " + t.cond(x.Y, st) + ")"
-		}
-		l, r, op := x.X, x.Y, x.Op
-		// constant on the left: mirror
-		if _, ok := t.lenOf(r, st); ok || c13tIsIdent(c13tUnparen(l), "nil") {
-			l, r = r, l
-			switch op {
-			case token.LSS:
-				op = token.GTR
-			case token.GTR:
-				op = token.LSS
-			case token.LEQ:
-				op = token.GEQ
-			case token.GEQ:
-				op = token.LEQ
-			}
-		}
-		if w, ok := t.lenOf(l, st); ok {
-			zero, pos := "(CLenZero "+hx.CoqStr(w)+")", "(CLenPos "+hx.CoqStr(w)+")"
-			switch {
-			case op == token.EQL && c13tIsInt(r, "0"), op == token.LSS && c13tIsInt(r, "1"), op == token.LEQ && c13tIsInt(r, "0"):
-				return zero
-			case op == token.GTR && c13tIsInt(r, "0"), op == token.NEQ && c13tIsInt(r, "0"), op == token.GEQ && c13tIsInt(r, "1"):
-				return pos
-			}
+func c13And(a, b *c13sv) *c13sv {
+	switch {
+	case a.kind == "false" || b.kind == "false":
+		return c13False
+	case a.kind == "true":
+		return b
+	case b.kind == "true":
+		return a
+	}
+	return c13Cond("(CAnd " + a.s + " " + b.s + ")")
+}
+
+func c13Or(a, b *c13sv) *c13sv {
+	switch {
+	case a.kind == "true" || b.kind == "true":
+		return c13True
+	case a.kind == "false":
+		return b
+	case b.kind == "false":
+		return a
+	}
+	return c13Cond("(COr " + a.s + " " + b.s + ")")
+}
+
+// compare: x <op> y for the comparisons the conditions use
+func (t *c13tr) compare(op token.Token, x, y *c13sv, at ast.Node) *c13sv {
+	mirror := map[token.Token]token.Token{token.LSS: token.GTR, token.GTR: token.LSS, token.LEQ: token.GEQ, token.GEQ: token.LEQ, token.EQL: token.EQL, token.NEQ: token.NEQ}
+	if y.kind == "len" || (x.kind == "nil" && y.kind != "nil") || ((x.kind == "true" || x.kind == "false") && y.kind == "cond") {
+		x, y, op = y, x, mirror[op]
+	}
+	unknown := func() *c13sv {
+		t.note(at, "comparison not understood")
+		return c13Cond("(CUnknown " + hx.CoqStr(t.src(at)) + ")")
+	}
+	switch {
+	case x.kind == "len" && y.kind == "int":
+		w, ok := x.a.who()
+		if !ok {
 			return unknown()
 		}
-		if w, ok := t.who(l, st); ok && c13tIsIdent(c13tUnparen(r), "nil") {
-			switch op {
-			case token.EQL:
-				return "(CIsNil " + hx.CoqStr(w) + ")"
-			case token.NEQ:
-				return "(CNot (CIsNil " + hx.CoqStr(w) + "))"
-			}
+		zero, pos := c13Cond("(CLenZero "+hx.CoqStr(w)+")"), c13Cond("(CLenPos "+hx.CoqStr(w)+")")
+		switch {
+		case op == token.EQL && y.s == "0", op == token.LSS && y.s == "1", op == token.LEQ && y.s == "0":
+			return zero
+		case op == token.GTR && y.s == "0", op == token.NEQ && y.s == "0", op == token.GEQ && y.s == "1":
+			return pos
 		}
+		return unknown()
+	case y.kind == "nil" && (op == token.EQL || op == token.NEQ):
+		var r *c13sv
+		switch x.kind {
+		case "nil":
+			r = c13True
+		case "errlib": // the error of a library call: the call is assumed to succeed
+			r = c13True
+		case "errval", "overlay", "oldvals", "rel", "recv", "chartparam":
+			r = c13False
+		default:
+			w, ok := x.who()
+			if !ok {
+				return unknown()
+			}
+			r = c13Cond("(CIsNil " + hx.CoqStr(w) + ")")
+		}
+		if op == token.NEQ {
+			return c13Not(r)
+		}
+		return r
+	case (y.kind == "true" || y.kind == "false") && (x.kind == "cond" || x.kind == "true" || x.kind == "false") && (op == token.EQL || op == token.NEQ):
+		r := x
+		if (y.kind == "false") != (op == token.NEQ) {
+			r = c13Not(x)
+		}
+		return r
 	}
 	return unknown()
 }
 
-func c13tIsErrCheck(e ast.Expr) bool {
-	b, ok := c13tUnparen(e).(*ast.BinaryExpr)
-	return ok && b.Op == token.NEQ && c13tIsIdent(c13tUnparen(b.X), "err") && c13tIsIdent(c13tUnparen(b.Y), "nil")
+// ---- expressions (continuation-passing: a call of a helper may fork) ----
+
+type c13k func(vs []*c13sv, p c13path)
+
+func (t *c13tr) eval1(e ast.Expr, env c13env, p c13path, fr *c13frame, k func(v *c13sv, p c13path)) {
+	t.eval(e, env, p, fr, func(vs []*c13sv, p c13path) {
+		if len(vs) == 0 {
+			k(c13other(t.src(e)), p)
+			return
+		}
+		k(vs[0], p)
+	})
 }
 
-// value: the Gallina rval an expression denotes on this path
-func (t *c13tr) value(e ast.Expr, st c13tState) string {
+func (t *c13tr) evalList(es []ast.Expr, env c13env, p c13path, fr *c13frame, k c13k) {
+	var go1 func(i int, acc []*c13sv, p c13path)
+	go1 = func(i int, acc []*c13sv, p c13path) {
+		if i == len(es) {
+			k(acc, p)
+			return
+		}
+		t.eval1(es[i], env, p, fr, func(v *c13sv, p c13path) {
+			go1(i+1, append(append([]*c13sv{}, acc...), v), p)
+		})
+	}
+	go1(0, nil, p)
+}
+
+func (t *c13tr) eval(e ast.Expr, env c13env, p c13path, fr *c13frame, k c13k) {
 	e = c13tUnparen(e)
-	other := func() string { return "(ROther " + hx.CoqStr(t.src(e)) + ")" }
-	if c13tIsIdent(e, t.nv) {
-		return st.val
-	}
-	if c13tIsSel(e, t.cur, "Config") {
-		return "RCur"
-	}
-	c, ok := e.(*ast.CallExpr)
-	if !ok {
-		return other()
-	}
-	if c13tIsSel(c.Fun, "chartutil", "CoalesceTables") && len(c.Args) == 2 && c13tIsSel(c13tUnparen(c.Args[1]), t.cur, "Config") {
-		dst := c13tUnparen(c.Args[0])
-		if id, ok := dst.(*ast.Ident); ok {
-			if st.vars[id.Name] == "copy" {
-				return "ROverlayCopy"
-			}
-			if id.Name == t.nv && st.val == "RNew" {
-				return "ROverlayInPlace"
-			}
-		}
-		if t.isCopyOfNew(dst, st) {
-			return "ROverlayCopy"
-		}
-	}
-	return other()
-}
-
-func (t *c13tr) isCopyOfNew(e ast.Expr, st c13tState) bool {
-	c, ok := c13tUnparen(e).(*ast.CallExpr)
-	return ok && c13tIsIdent(c.Fun, "copyVals") && len(c.Args) == 1 && c13tIsIdent(c13tUnparen(c.Args[0]), t.nv) && st.val == "RNew"
-}
-
-func (t *c13tr) isOldVals(e ast.Expr) bool {
-	c, ok := c13tUnparen(e).(*ast.CallExpr)
-	return ok && c13tIsSel(c.Fun, "chartutil", "CoalesceValues") && len(c.Args) == 2 &&
-		c13tIsSel(c13tUnparen(c.Args[0]), t.cur, "Chart") && c13tIsSel(c13tUnparen(c.Args[1]), t.cur, "Config")
-}
-
-func (t *c13tr) fail(n ast.Node, what string) {
-	if t.err == nil {
-		t.err = fmt.Errorf("reuseValues line %d: %s: %s", t.fset.Position(n.Pos()).Line, what, t.src(n))
-	}
-}
-
-func (t *c13tr) assign(a *ast.AssignStmt, st *c13tState) {
-	if len(a.Rhs) != 1 || len(a.Lhs) < 1 || len(a.Lhs) > 2 {
-		t.fail(a, "assignment form not understood")
-		return
-	}
-	if len(a.Lhs) == 2 && !c13tIsIdent(a.Lhs[1], "err") && !c13tIsIdent(a.Lhs[1], "_") {
-		t.fail(a, "second target is not err")
-		return
-	}
-	lhs, rhs := a.Lhs[0], a.Rhs[0]
-	switch {
-	case c13tIsSel(lhs, t.chart, "Values"):
-		if id, ok := c13tUnparen(rhs).(*ast.Ident); ok && st.vars[id.Name] == "oldvals" {
-			st.keepOld = "true"
-		} else if t.isOldVals(rhs) {
-			st.keepOld = "true"
-		} else {
-			st.keepOld = "other: " + t.src(rhs)
-		}
-	case c13tIsIdent(lhs, t.nv):
-		st.val = t.value(rhs, *st)
-	default:
-		id, ok := lhs.(*ast.Ident)
-		if !ok {
-			t.fail(a, "assignment target not understood")
+	one := func(v *c13sv) { k([]*c13sv{v}, p) }
+	switch x := e.(type) {
+	case *ast.Ident:
+		if v, ok := env.get(x.Name); ok {
+			one(v)
 			return
 		}
-		switch {
-		case t.isOldVals(rhs):
-			st.vars[id.Name] = "oldvals"
-		case t.isCopyOfNew(rhs, *st):
-			st.vars[id.Name] = "copy"
+		switch x.Name {
+		case "nil":
+			one(&c13sv{kind: "nil"})
+		case "true":
+			one(c13True)
+		case "false":
+			one(c13False)
 		default:
-			st.vars[id.Name] = "other"
+			one(c13other(x.Name))
 		}
+	case *ast.BasicLit:
+		if x.Kind == token.INT {
+			one(&c13sv{kind: "int", s: x.Value})
+			return
+		}
+		one(c13other(x.Value))
+	case *ast.SelectorExpr:
+		if id, ok := x.X.(*ast.Ident); ok {
+			if _, bound := env.get(id.Name); !bound {
+				one(c13other(t.src(x))) // package-qualified name
+				return
+			}
+		}
+		t.eval1(x.X, env, p, fr, func(b *c13sv, p c13path) {
+			var v *c13sv
+			switch {
+			case b.kind == "recv":
+				v = c13Cond("(CFlag " + hx.CoqStr(x.Sel.Name) + ")")
+			case b.kind == "rel" && x.Sel.Name == "Config":
+				v = &c13sv{kind: "cur"}
+			case b.kind == "rel" && x.Sel.Name == "Chart":
+				v = &c13sv{kind: "curchart"}
+			default:
+				v = c13other(t.src(x))
+			}
+			k([]*c13sv{v}, p)
+		})
+	case *ast.UnaryExpr:
+		if x.Op != token.NOT {
+			one(c13other(t.src(x)))
+			return
+		}
+		t.eval1(x.X, env, p, fr, func(v *c13sv, p c13path) { k([]*c13sv{c13Not(t.asCond(v, x.X))}, p) })
+	case *ast.BinaryExpr:
+		t.eval1(x.X, env, p, fr, func(a *c13sv, p c13path) {
+			t.eval1(x.Y, env, p, fr, func(b *c13sv, p c13path) {
+				var v *c13sv
+				switch x.Op {
+				case token.LAND:
+					v = c13And(t.asCond(a, x.X), t.asCond(b, x.Y))
+				case token.LOR:
+					v = c13Or(t.asCond(a, x.X), t.asCond(b, x.Y))
+				case token.EQL, token.NEQ, token.LSS, token.GTR, token.LEQ, token.GEQ:
+					v = t.compare(x.Op, a, b, x)
+				default:
+					v = c13other(t.src(x))
+				}
+				k([]*c13sv{v}, p)
+			})
+		})
+	case *ast.TypeAssertExpr:
+		t.eval(x.X, env, p, fr, k)
+	case *ast.StarExpr:
+		t.eval(x.X, env, p, fr, k)
+	case *ast.CallExpr:
+		t.call(x, env, p, fr, k)
+	default:
+		one(c13other(t.src(e)))
 	}
 }
 
-// exec runs the statements symbolically, forking at every condition on the flags / the maps
-func (t *c13tr) exec(stmts []ast.Stmt, conds []string, st c13tState) {
-	for i, s := range stmts {
-		rest := stmts[i+1:]
-		switch x := s.(type) {
-		case *ast.ExprStmt:
-			if c, ok := x.X.(*ast.CallExpr); ok {
-				if sel, ok := c.Fun.(*ast.SelectorExpr); ok && c13tIsIdent(sel.X, "slog") {
-					continue // logging
-				}
+func c13Callee(c *ast.CallExpr) (pkg, name string) {
+	switch f := c13tUnparen(c.Fun).(type) {
+	case *ast.Ident:
+		return "", f.Name
+	case *ast.SelectorExpr:
+		if id, ok := f.X.(*ast.Ident); ok {
+			return id.Name, f.Sel.Name
+		}
+	}
+	return "?", "?"
+}
+
+func (t *c13tr) call(c *ast.CallExpr, env c13env, p c13path, fr *c13frame, k c13k) {
+	pkg, name := c13Callee(c)
+	errlib := &c13sv{kind: "errlib"}
+	t.evalList(c.Args, env, p, fr, func(args []*c13sv, p c13path) {
+		arg := func(i int) *c13sv {
+			if i < len(args) {
+				return args[i]
 			}
-			t.fail(x, "statement not understood")
-			return
-		case *ast.AssignStmt:
-			t.assign(x, &st)
-		case *ast.BlockStmt:
-			t.exec(append(append([]ast.Stmt{}, x.List...), rest...), conds, st)
-			return
-		case *ast.ReturnStmt:
-			if len(x.Results) != 2 {
-				t.fail(x, "return form not understood")
+			return c13other("?")
+		}
+		_, pkgIsLocal := env.get(pkg)
+		switch {
+		case pkg == "" && name == "len" && len(args) == 1:
+			k([]*c13sv{{kind: "len", a: arg(0)}}, p)
+		case (pkg == "" && name == "copyVals" || pkg == "copystructure" && name == "Copy") && len(args) == 1:
+			k([]*c13sv{{kind: "copy", a: arg(0)}, errlib}, p)
+		case pkg == "chartutil" && name == "CoalesceTables" && len(args) == 2:
+			k([]*c13sv{{kind: "overlay", a: arg(0), b: arg(1)}}, p)
+		case pkg == "chartutil" && name == "CoalesceValues" && len(args) == 2:
+			if arg(0).kind == "curchart" && arg(1).kind == "cur" {
+				k([]*c13sv{{kind: "oldvals"}, errlib}, p)
+			} else {
+				k([]*c13sv{c13other(t.src(c)), errlib}, p)
+			}
+		case (pkg == "errors" || pkg == "fmt" && strings.HasPrefix(name, "Errorf")) && !pkgIsLocal:
+			k([]*c13sv{{kind: "errval"}}, p)
+		case pkg == "slog" && !pkgIsLocal:
+			k(nil, p)
+		default:
+			var fd *ast.FuncDecl
+			var recv *c13sv
+			if pkg == "" {
+				fd = t.funcs[name]
+			} else if b, ok := env.get(pkg); ok && b.kind == "recv" {
+				fd, recv = t.methods[name], b
+			}
+			if fd == nil || fd.Body == nil {
+				k([]*c13sv{c13other(t.src(c)), errlib}, p)
 				return
 			}
-			if !c13tIsIdent(c13tUnparen(x.Results[1]), "nil") {
-				return // an error exit: not a decision
-			}
-			t.rows = append(t.rows, c13tRow{t.fset.Position(x.Pos()).Line, append([]string{}, conds...), t.value(x.Results[0], st), st.keepOld})
-			return
-		case *ast.IfStmt:
-			if x.Init != nil {
-				a, ok := x.Init.(*ast.AssignStmt)
-				if !ok {
-					t.fail(x, "if-initialiser not understood")
-					return
-				}
-				t.assign(a, &st)
-			}
-			if c13tIsErrCheck(x.Cond) {
-				continue // `if err != nil { return nil, ... }`: the error exit of a library call
-			}
-			c := t.cond(x.Cond, st)
-			t.exec(append(append([]ast.Stmt{}, x.Body.List...), rest...), append(append([]string{}, conds...), c), st.clone())
-			var els []ast.Stmt
-			switch e := x.Else.(type) {
-			case *ast.BlockStmt:
-				els = e.List
-			case *ast.IfStmt:
-				els = []ast.Stmt{e}
-			}
-			t.exec(append(append([]ast.Stmt{}, els...), rest...), append(append([]string{}, conds...), "(CNot "+c+")"), st.clone())
-			return
-		case *ast.SwitchStmt:
-			if x.Tag != nil || x.Init != nil {
-				t.fail(x, "switch with a tag not understood")
+			if fr.depth >= 6 {
+				t.note(c, "call nesting too deep to inline")
+				k([]*c13sv{c13other(t.src(c)), errlib}, p)
 				return
 			}
-			neg := append([]string{}, conds...)
-			var deflt []ast.Stmt
-			hasDefault := false
-			for _, cc := range x.Body.List {
-				cl := cc.(*ast.CaseClause)
-				for _, b := range cl.Body {
-					if br, ok := b.(*ast.BranchStmt); ok {
-						t.fail(br, "branch statement in switch not understood")
-						return
+			t.inline(fd, recv, args, p, fr.depth+1, c, k)
+		}
+	})
+}
+
+// inline: run a same-package function / method on the argument values
+func (t *c13tr) inline(fd *ast.FuncDecl, recv *c13sv, args []*c13sv, p c13path, depth int, at ast.Node, k c13k) {
+	env := c13env{map[string]*c13sv{}}
+	if fd.Recv != nil && len(fd.Recv.List) == 1 && len(fd.Recv.List[0].Names) == 1 && recv != nil {
+		env.set(fd.Recv.List[0].Names[0].Name, recv, true)
+	}
+	i := 0
+	for _, fl := range fd.Type.Params.List {
+		for _, n := range fl.Names {
+			if i < len(args) {
+				env.set(n.Name, args[i], true)
+			} else {
+				env.set(n.Name, c13other(n.Name), true)
+			}
+			i++
+		}
+	}
+	fr := &c13frame{depth: depth}
+	if fd.Type.Results != nil {
+		for _, fl := range fd.Type.Results.List {
+			for _, n := range fl.Names {
+				fr.results = append(fr.results, n.Name)
+				env.set(n.Name, &c13sv{kind: "nil"}, true)
+			}
+		}
+	}
+	t.exec(fd.Body.List, env, p, fr, k,
+		func(_ c13env, p c13path) { k(nil, p) }, // fell off the end: a function without results
+		nil)
+}
+
+// ---- statements ----
+
+type c13cont func(env c13env, p c13path)
+
+func (t *c13tr) assignTo(lhs ast.Expr, v *c13sv, define bool, env c13env, p *c13path, fr *c13frame) {
+	switch x := c13tUnparen(lhs).(type) {
+	case *ast.Ident:
+		env.set(x.Name, v, define)
+	case *ast.SelectorExpr:
+		var base *c13sv
+		if id, ok := x.X.(*ast.Ident); ok {
+			base, _ = env.get(id.Name)
+		}
+		if base != nil && base.kind == "chartparam" && x.Sel.Name == "Values" {
+			if v.kind == "oldvals" {
+				p.keep = "true"
+			} else {
+				p.keep = "other: " + v.desc()
+			}
+			return
+		}
+		t.note(lhs, "assignment target not understood")
+	default:
+		t.note(lhs, "assignment target not understood")
+	}
+}
+
+func (t *c13tr) exec(stmts []ast.Stmt, env c13env, p c13path, fr *c13frame, ret c13k, fall c13cont, brk c13cont) {
+	t.steps++
+	if t.steps > 200000 {
+		if !t.seenUnk["too many paths"] {
+			t.seenUnk["too many paths"] = true
+			t.unknown = append(t.unknown, "the function has too many paths to enumerate")
+		}
+		return
+	}
+	if len(stmts) == 0 {
+		fall(env, p)
+		return
+	}
+	s, rest := stmts[0], stmts[1:]
+	next := func(env c13env, p c13path) { t.exec(rest, env, p, fr, ret, fall, brk) }
+	switch x := s.(type) {
+	case *ast.EmptyStmt:
+		next(env, p)
+	case *ast.ExprStmt:
+		c, ok := c13tUnparen(x.X).(*ast.CallExpr)
+		if !ok {
+			t.note(x, "statement not understood")
+			next(env, p)
+			return
+		}
+		pkg, name := c13Callee(c)
+		_, local := env.get(pkg)
+		known := pkg == "slog" && !local || pkg == "" && t.funcs[name] != nil
+		if b, ok := env.get(pkg); ok && b.kind == "recv" && t.methods[name] != nil {
+			known = true
+		}
+		if !known {
+			t.note(x, "statement not understood (a call whose effect is not known)")
+			next(env, p)
+			return
+		}
+		t.eval(c, env, p, fr, func(_ []*c13sv, p c13path) { next(env.clone(), p) })
+	case *ast.AssignStmt:
+		if x.Tok != token.ASSIGN && x.Tok != token.DEFINE {
+			t.note(x, "assignment form not understood")
+			next(env, p)
+			return
+		}
+		define := x.Tok == token.DEFINE
+		bind := func(vs []*c13sv, p c13path) {
+			e2 := env.clone()
+			if len(vs) != len(x.Lhs) {
+				// a callee that is not known: its first result is what it is, the rest are its error
+				pad := make([]*c13sv, len(x.Lhs))
+				for i := range pad {
+					switch {
+					case i < len(vs) && len(vs) > 0 && i == 0:
+						pad[i] = vs[0]
+					case i == 0:
+						pad[i] = c13other(t.src(x.Rhs[0]))
+					default:
+						pad[i] = &c13sv{kind: "errlib"}
 					}
 				}
-				if cl.List == nil {
-					deflt, hasDefault = cl.Body, true
-					continue
-				}
-				c := t.cond(cl.List[0], st)
-				for _, e := range cl.List[1:] {
-					c = "(COr " + c + " " + t.cond(e, st) + ")"
-				}
-				t.exec(append(append([]ast.Stmt{}, cl.Body...), rest...), append(append([]string{}, neg...), c), st.clone())
-				neg = append(neg, "(CNot "+c+")")
+				vs = pad
 			}
-			_ = hasDefault
-			t.exec(append(append([]ast.Stmt{}, deflt...), rest...), neg, st.clone())
-			return
-		default:
-			t.fail(s, "statement not understood")
+			for i, l := range x.Lhs {
+				t.assignTo(l, vs[i], define, e2, &p, fr)
+			}
+			next(e2, p)
+		}
+		if len(x.Rhs) == 1 {
+			t.eval(x.Rhs[0], env, p, fr, bind)
+		} else {
+			t.evalList(x.Rhs, env, p, fr, bind)
+		}
+	case *ast.DeclStmt:
+		gd, ok := x.Decl.(*ast.GenDecl)
+		if !ok || gd.Tok != token.VAR {
+			next(env, p) // const / type declarations decide nothing
 			return
 		}
+		var names []ast.Expr
+		var vals []ast.Expr
+		e2 := env.clone()
+		for _, sp := range gd.Specs {
+			vs := sp.(*ast.ValueSpec)
+			if len(vs.Values) == 0 {
+				for _, n := range vs.Names {
+					e2.set(n.Name, &c13sv{kind: "nil"}, true) // zero value
+				}
+				continue
+			}
+			for _, n := range vs.Names {
+				names = append(names, n)
+			}
+			vals = append(vals, vs.Values...)
+		}
+		if len(vals) == 0 {
+			next(e2, p)
+			return
+		}
+		t.exec(append([]ast.Stmt{&ast.AssignStmt{Lhs: names, Tok: token.DEFINE, Rhs: vals, TokPos: x.Pos()}}, rest...), e2, p, fr, ret, fall, brk)
+	case *ast.BlockStmt:
+		t.exec(x.List, env.push(), p, fr, ret, func(e c13env, p c13path) { next(e.upto(len(env)), p) }, brk)
+	case *ast.ReturnStmt:
+		switch {
+		case len(x.Results) == 0:
+			var vs []*c13sv
+			for _, n := range fr.results {
+				v, _ := env.get(n)
+				vs = append(vs, v)
+			}
+			ret(vs, p)
+		case len(x.Results) == 1:
+			t.eval(x.Results[0], env, p, fr, ret) // possibly a forwarded multi-value call
+		default:
+			t.evalList(x.Results, env, p, fr, ret)
+		}
+	case *ast.IfStmt:
+		e1 := env.push()
+		after := func(e c13env, p c13path) { next(e.upto(len(env)), p) }
+		body := func(e c13env, p c13path) {
+			t.eval1(x.Cond, e, p, fr, func(cv *c13sv, p c13path) {
+				c := t.asCond(cv, x.Cond)
+				var els []ast.Stmt
+				switch el := x.Else.(type) {
+				case *ast.BlockStmt:
+					els = el.List
+				case *ast.IfStmt:
+					els = []ast.Stmt{el}
+				}
+				if c.kind != "false" {
+					pt := p
+					if c.kind == "cond" {
+						pt = p.with(c.s)
+					}
+					t.exec(x.Body.List, e.push(), pt, fr, ret, after, brk)
+				}
+				if c.kind != "true" {
+					pf := p
+					if c.kind == "cond" {
+						pf = p.with(c13Not(c).s)
+					}
+					t.exec(els, e.push(), pf, fr, ret, after, brk)
+				}
+			})
+		}
+		if x.Init != nil {
+			t.exec([]ast.Stmt{x.Init}, e1, p, fr, ret, body, brk)
+		} else {
+			body(e1, p)
+		}
+	case *ast.SwitchStmt:
+		e1 := env.push()
+		after := func(e c13env, p c13path) { next(e.upto(len(env)), p) }
+		var clauses []*ast.CaseClause
+		var deflt *ast.CaseClause
+		for _, cc := range x.Body.List {
+			cl := cc.(*ast.CaseClause)
+			if cl.List == nil {
+				deflt = cl
+			} else {
+				clauses = append(clauses, cl)
+			}
+			for _, b := range cl.Body {
+				if br, ok := b.(*ast.BranchStmt); ok && br.Tok == token.FALLTHROUGH {
+					t.note(br, "fallthrough not understood")
+				}
+			}
+		}
+		runBody := func(cl *ast.CaseClause, e c13env, p c13path) {
+			var b []ast.Stmt
+			if cl != nil {
+				b = cl.Body
+			}
+			t.exec(b, e.push(), p, fr, ret, after, after)
+		}
+		body := func(e c13env, p c13path) {
+			withTag := func(tag *c13sv, p c13path) {
+				// the clauses in source order; [i] = next clause to test on the path where all before failed
+				var try func(i int, e c13env, p c13path)
+				try = func(i int, e c13env, p c13path) {
+					if i == len(clauses) {
+						runBody(deflt, e, p)
+						return
+					}
+					cl := clauses[i]
+					t.evalList(cl.List, e, p, fr, func(cvs []*c13sv, p c13path) {
+						var c *c13sv = c13False
+						for j, cv := range cvs {
+							var one *c13sv
+							if tag == nil {
+								one = t.asCond(cv, cl.List[j])
+							} else {
+								one = t.compare(token.EQL, tag, cv, cl.List[j])
+							}
+							c = c13Or(c, one)
+						}
+						if c.kind != "false" {
+							pt := p
+							if c.kind == "cond" {
+								pt = p.with(c.s)
+							}
+							runBody(cl, e.clone(), pt)
+						}
+						if c.kind != "true" {
+							pf := p
+							if c.kind == "cond" {
+								pf = p.with(c13Not(c).s)
+							}
+							try(i+1, e.clone(), pf)
+						}
+					})
+				}
+				try(0, e, p)
+			}
+			if x.Tag == nil {
+				withTag(nil, p)
+			} else {
+				t.eval1(x.Tag, e, p, fr, func(tag *c13sv, p c13path) { withTag(tag, p) })
+			}
+		}
+		if x.Init != nil {
+			t.exec([]ast.Stmt{x.Init}, e1, p, fr, ret, body, brk)
+		} else {
+			body(e1, p)
+		}
+	case *ast.BranchStmt:
+		if x.Tok == token.BREAK && x.Label == nil && brk != nil {
+			brk(env, p)
+			return
+		}
+		if x.Tok == token.FALLTHROUGH {
+			next(env, p) // already noted
+			return
+		}
+		t.note(x, "branch statement not understood")
+		next(env, p)
+	case *ast.LabeledStmt:
+		t.exec(append([]ast.Stmt{x.Stmt}, rest...), env, p, fr, ret, fall, brk)
+	default:
+		t.note(s, "statement not understood")
+		next(env, p)
 	}
-	if t.err == nil && len(stmts) == 0 {
-		t.err = fmt.Errorf("reuseValues: a path ends without a return")
+}
+
+// ---- the table ----
+
+func c13ParsePkg(repo, rel string) (*token.FileSet, []*ast.File, error) {
+	fset := token.NewFileSet()
+	dir := filepath.Join(repo, rel)
+	ents, err := os.ReadDir(dir)
+	if err != nil {
+		return nil, nil, err
 	}
+	var names []string
+	for _, e := range ents {
+		n := e.Name()
+		if e.IsDir() || !strings.HasSuffix(n, ".go") || strings.HasSuffix(n, "_test.go") || strings.HasPrefix(n, "zz_verif_") {
+			continue
+		}
+		names = append(names, n)
+	}
+	sort.Strings(names)
+	var files []*ast.File
+	for _, n := range names {
+		f, err := parser.ParseFile(fset, filepath.Join(dir, n), nil, 0)
+		if err != nil {
+			return nil, nil, err
+		}
+		files = append(files, f)
+	}
+	return fset, files, nil
+}
+
+func c13RecvType(fd *ast.FuncDecl) string {
+	if fd.Recv == nil || len(fd.Recv.List) != 1 {
+		return ""
+	}
+	e := fd.Recv.List[0].Type
+	if s, ok := e.(*ast.StarExpr); ok {
+		e = s.X
+	}
+	if id, ok := e.(*ast.Ident); ok {
+		return id.Name
+	}
+	return ""
 }
 
 func genC13Reuse(repo string) (string, error) {
-	f, fset, err := parseFile(repo, "pkg/action/upgrade.go")
+	t := &c13tr{funcs: map[string]*ast.FuncDecl{}, methods: map[string]*ast.FuncDecl{}, seenUnk: map[string]bool{}}
+	fail := func(msg string) { t.unknown = append(t.unknown, msg) }
+	fset, files, err := c13ParsePkg(repo, "pkg/action")
 	if err != nil {
-		return "", err
+		fail("pkg/action cannot be parsed: " + err.Error())
 	}
+	t.fset = fset
 	var fd *ast.FuncDecl
-	for _, d := range f.Decls {
-		if x, ok := d.(*ast.FuncDecl); ok && x.Name.Name == "reuseValues" && x.Recv != nil && x.Body != nil {
-			fd = x
+	for _, f := range files {
+		for _, d := range f.Decls {
+			x, ok := d.(*ast.FuncDecl)
+			if !ok || x.Body == nil {
+				continue
+			}
+			switch c13RecvType(x) {
+			case "":
+				if x.Recv == nil {
+					t.funcs[x.Name.Name] = x
+				}
+			case "Upgrade":
+				t.methods[x.Name.Name] = x
+				if x.Name.Name == "reuseValues" {
+					fd = x
+				}
+			}
 		}
 	}
-	if fd == nil {
-		return "", fmt.Errorf("method reuseValues not found in pkg/action/upgrade.go")
+	if err == nil && fd == nil {
+		fail("method reuseValues of Upgrade not found in pkg/action")
 	}
-	t := &c13tr{fset: fset}
-	if len(fd.Recv.List) == 1 && len(fd.Recv.List[0].Names) == 1 {
-		t.recv = fd.Recv.List[0].Names[0].Name
-	}
-	var params []string
-	for _, fl := range fd.Type.Params.List {
-		for _, n := range fl.Names {
-			params = append(params, n.Name)
+	if fd != nil {
+		var params []string
+		for _, fl := range fd.Type.Params.List {
+			for _, n := range fl.Names {
+				params = append(params, n.Name)
+			}
 		}
-	}
-	if t.recv == "" || len(params) != 3 {
-		return "", fmt.Errorf("reuseValues: expected a named receiver and three parameters (chart, current release, new values), got %v", params)
-	}
-	t.chart, t.cur, t.nv = params[0], params[1], params[2]
-	t.exec(fd.Body.List, nil, c13tState{val: "RNew", vars: map[string]string{}, keepOld: "false"})
-	if t.err != nil {
-		return "", t.err
-	}
-	if len(t.rows) == 0 {
-		return "", fmt.Errorf("reuseValues: no path to a `return <values>, nil` found")
+		nres := 0
+		if fd.Type.Results != nil {
+			nres = fd.Type.Results.NumFields()
+		}
+		if len(params) != 3 || nres != 2 || len(fd.Recv.List[0].Names) != 1 {
+			fail(fmt.Sprintf("reuseValues: expected a named receiver, three parameters (chart, current release, new values) and two results, got parameters %v and %d results", params, nres))
+		} else {
+			args := []*c13sv{{kind: "chartparam"}, {kind: "rel"}, {kind: "new"}}
+			t.inline(fd, &c13sv{kind: "recv"}, args, c13path{keep: "false"}, 0, fd, func(vs []*c13sv, p c13path) {
+				if len(vs) != 2 {
+					t.note(fd, fmt.Sprintf("a path returns %d values", len(vs)))
+					return
+				}
+				switch vs[1].kind {
+				case "nil", "errlib": // errlib: the forwarded error of a library call that is assumed to succeed
+				case "errval":
+					return // an error exit: not a decision
+				default:
+					t.note(fd, "a path returns an error that is not understood ("+vs[1].desc()+")")
+					return
+				}
+				t.rows = append(t.rows, c13row{p.conds, vs[0].rval(), p.keep})
+			})
+			if len(t.rows) == 0 {
+				fail("reuseValues: no path to a `return <values>, nil` found")
+			}
+		}
 	}
 	var b strings.Builder
 	b.WriteString("From Helm Require Import Values.ReuseMode.\n\n")
-	b.WriteString("(* pkg/action/upgrade.go, method reuseValues of Upgrade: one row per path to a `return <values>, nil`;\n   see harness/cmd/hx/gentables_c13.go *)\n")
+	b.WriteString("(* pkg/action/upgrade.go, method reuseValues of Upgrade (same-package helpers inlined): one row per\n   path to a `return <values>, nil`; see harness/cmd/hx/gentables_c13.go *)\n")
 	b.WriteString("Definition reuse_rows : list row :=\n  [ ")
 	for i, r := range t.rows {
 		if i > 0 {
 			b.WriteString(";\n    ")
 		}
-		val := r.val
-		keep := r.keep
+		val, keep := r.val, r.keep
 		if keep != "true" && keep != "false" {
 			val, keep = "(ROther "+hx.CoqStr("chart.Values = "+strings.TrimPrefix(keep, "other: "))+")", "false"
 		}
-		fmt.Fprintf(&b, "(* return at line %d *) (%s, mkAct %s %s)", r.line, hx.CoqList(r.conds), val, keep)
+		fmt.Fprintf(&b, "(%s, mkAct %s %s)", hx.CoqList(r.conds), val, keep)
 	}
-	b.WriteString(" ].\n")
+	b.WriteString(" ].\n\n")
+	b.WriteString("(* what the translator met on the way and could not interpret (must be empty) *)\n")
+	b.WriteString("Definition reuse_rows_unknown : list string :=\n  " + hx.CoqStrList(t.unknown) + ".\n")
 	return b.String(), nil
 }
